@@ -744,8 +744,18 @@ fn eval_plan(c: &PlanCase) -> PlanEval {
     ev
 }
 
+/// Segment sizes from 1 KiB up are *headered* segments: a real segment starts with its 480-byte
+/// header (`SEGMENT_HEADER_SIZE`), so its write position is never below 480 unless the segment
+/// was never used (0); the positions then divide the payload area instead of the whole segment.
+const HEADER: u64 = 480;
+
 fn wp_values(s: u64) -> Vec<u64> {
-    let mut v = vec![0, 1, s / 4, s / 2, 3 * s / 4, s - 1, s];
+    let mut v = if s >= 1024 {
+        let p = s - HEADER;
+        vec![0, HEADER, HEADER + 1, HEADER + p / 4, HEADER + p / 2, HEADER + 3 * p / 4, s - 1, s]
+    } else {
+        vec![0, 1, s / 4, s / 2, 3 * s / 4, s - 1, s]
+    };
     v.sort_unstable();
     v.dedup();
     v
@@ -754,7 +764,7 @@ fn wp_values(s: u64) -> Vec<u64> {
 fn run_plan(rep: &Report, tier: Tier) -> Value {
     let max_segs = tier.pick(5usize, 6usize);
     let thresholds = [25u32, 50, 75, 100, 150];
-    let sizes = [8u64, 100];
+    let sizes = [8u64, 100, 2048];
     // shard: (size, threshold, count, first segment option)
     let mut tasks: Vec<(u64, u32, usize, usize)> = Vec::new();
     for s in sizes {
@@ -860,7 +870,7 @@ fn run_plan(rep: &Report, tier: Tier) -> Value {
     }
     json!({
         "max_segments": max_segs, "segment_sizes": sizes, "thresholds": thresholds.iter().map(|t| f64::from(*t) / 100.0).collect::<Vec<_>>(),
-        "write_positions": "0, 1, s/4, s/2, 3s/4, s-1, s", "states": ["Frozen", "Thawed"],
+        "write_positions": "0, 1, s/4, s/2, 3s/4, s-1, s; for the headered size 2048 (480-byte segment header + payload p): 0, 480, 481, 480+p/4, 480+p/2, 480+3p/4, s-1, s", "states": ["Frozen", "Thawed"],
         "populations": plans, "non_empty_plans": nonempty, "plans_with_more_than_one_destination": multi, "moves_checked": moves,
         "informational_plans_where_a_source_segment_is_also_a_destination (not a clause of the statement, not judged)": sat,
     })
